@@ -256,9 +256,17 @@ def audit(roots, ctx, extra=None, nodes=True):
     occ.clear()
     del objs
     for o in live():
-        if id(o) not in known and not (extra and id(o) in extra):
-            probs.append('%r is alive but no container slot refers to it (%d reference(s))'
-                         % (o, sys.getrefcount(o) - 2))
+        if id(o) in known:
+            continue
+        if extra and id(o) in extra:
+            have = sys.getrefcount(o) - 3       # the live() list, the loop variable, the call argument
+            n_audited += 1
+            if have != extra[id(o)]:
+                probs.append('%r (element of an operand): refcount %d, %d operand slot(s) own it'
+                             % (o, have, extra[id(o)]))
+            continue
+        probs.append('%r is alive but no container slot refers to it (%d reference(s))'
+                     % (o, sys.getrefcount(o) - 3))
     stats['audited_objects'] = n_audited
     return probs, stats
 
@@ -341,11 +349,20 @@ class Ctx16:
         self.leaf_types = (F.cls(fam, 'Bucket', 'c'), F.cls(fam, 'Set', 'c'))
         self.dom = Dom(fam, n)
         self.mod = F.module(fam)
+        self.operands = []      # plain-iterable operands of the running operation (see hold())
         if sizes:
             F.set_sizes(fam, *sizes)
 
     def new(self):
         return self.cls()
+
+    def hold(self, lst):
+        """Keep a plain list operand alive until the audit: its elements are then owned by exactly
+        one list slot each (or one tuple slot for (key, value) pairs), which the ledger checks - a
+        reference the operation took from or gave to an OPERAND object shows there (the temporary
+        list would otherwise die with the evidence)."""
+        self.operands.append(lst)
+        return lst
 
 
 # --------------------------------------------------------------------------
@@ -463,17 +480,28 @@ def catalogue(ctx, present):
             if present:
                 add('insert-old', 'mutate', lambda t: t.insert(K_(present[0]), V_(9)))
         add('update(pairs)', 'mutate',
-            lambda t: t.update([(K_(p), V_(i)) for i, p in enumerate(reversed(d.kpos))]))
+            lambda t: t.update(ctx.hold([(K_(p), V_(i)) for i, p in enumerate(reversed(d.kpos))])))
+
+        class FreshPairs:
+            # a mapping-like source whose items() hands out pairs nobody else refers to: the pair
+            # is the sole owner of its key and value while update() stores them
+            def items(self):
+                return ((K_(p), V_(i + 4)) for i, p in enumerate(reversed(d.kpos)))
+        add('update(fresh-pairs)', 'mutate', lambda t: t.update(FreshPairs()))
         add('update(dict)', 'mutate', lambda t: t.update({K_(p): V_(3) for p in d.kpos[::2]}))
         add('update(container)', 'mutate', lambda t: t.update(second(ctx)))
     else:
         add('remove-absent', 'fail', lambda t: t.remove(K_(a0)))
         add('discard-absent', 'mutate', lambda t: t.discard(K_(a1)))
         add('pop', 'mutate', lambda t: t.pop())
-        add('update(list)', 'mutate', lambda t: t.update([K_(p) for p in reversed(d.kpos)]))
+        add('update(list)', 'mutate', lambda t: t.update(ctx.hold([K_(p) for p in reversed(d.kpos)])))
         add('update(container)', 'mutate', lambda t: t.update(second(ctx)))
         for nm in ('__ior__', '__iand__', '__isub__', '__ixor__'):
-            add(nm + '(list)', 'mutate', lambda t, nm=nm: getattr(t, nm)([K_(p) for p in d.kpos[1::2]]) and None)
+            add(nm + '(list)', 'mutate',
+                lambda t, nm=nm: getattr(t, nm)(ctx.hold([K_(p) for p in d.kpos[1::2]])) and None)
+            add(nm + '(list-with-duplicates)', 'mutate',
+                lambda t, nm=nm: getattr(t, nm)(ctx.hold(
+                    [K_(p) for p in (d.kpos[-1], d.kpos[0], d.kpos[-1], d.gaps[0], d.kpos[0], d.gaps[0])])) and None)
             add(nm + '(container)', 'mutate', lambda t, nm=nm: getattr(t, nm)(second(ctx)) and None)
     add('clear', 'mutate', lambda t: t.clear())
     # ---- reads with fresh probe objects
@@ -590,7 +618,7 @@ def catalogue(ctx, present):
     # plain iterables as operands: unsorted, with a key twice (fresh objects for every element)
     def dups():
         ps = [d.kpos[-1], d.kpos[0], d.kpos[-1], d.gaps[0], d.kpos[0], d.gaps[0]]
-        return [K_(p) for p in ps]
+        return ctx.hold([K_(p) for p in ps])
     for fname in ('union', 'intersection', 'difference'):
         fn_ = getattr(mod, fname)
         add(fname + '(t,list-with-duplicates)', 'setop', lambda t, fn_=fn_: ('containers', [fn_(t, dups())]))
@@ -742,6 +770,7 @@ def leaf_extras(ctx):
 def run_one(ctx, hist, fn, rep, sig, case, guards, fault=None):
     """Rebuild the state, run one operation (optionally with a comparison fault), audit."""
     reset()
+    del ctx.operands[:]
     t = rebuild(ctx, hist)
     held = None
     if fault is None:
@@ -767,8 +796,11 @@ def run_one(ctx, hist, fn, rep, sig, case, guards, fault=None):
     if out[0] == 'problem':
         rep.add(dict(sig, cls='successor-refcount'), case, out[1])
     roots = [t] + [h for h in (held or []) if h is not None and h is not t]
+    extra = operand_owners(ctx.operands)
+    if extra:
+        guards['operand_elements_audited'] += len(extra)
     try:
-        probs, stats = audit(roots, ctx)
+        probs, stats = audit(roots, ctx, extra=extra)
     except Exception as e:      # noqa
         probs, stats = ['census failed: %r' % (e,)], {}
     guards['audits'] += 1
@@ -780,12 +812,14 @@ def run_one(ctx, hist, fn, rep, sig, case, guards, fault=None):
     elif held:
         del roots
         del held
-        probs, stats = audit([t], ctx)
+        probs, stats = audit([t], ctx, extra=extra)
         if probs:
             rep.add(dict(sig, cls='ledger-after-drop'), case,
                     '%s: after dropping the results: %s' % (case.get('op'), '; '.join(probs[:4])))
     roots = held = None
     del t
+    extra = None
+    del ctx.operands[:]
     left = live()
     if left:
         rep.add(dict(sig, cls='alive-after-drop'), case,
@@ -795,6 +829,20 @@ def run_one(ctx, hist, fn, rep, sig, case, guards, fault=None):
         guards['all_dead_after_drop'] += 1
     del left
     return out, cnt, fired
+
+
+def operand_owners(operands):
+    """{id(object): slots of the held operand lists owning it} for tracked keys / values."""
+    extra = collections.Counter()
+    for lst in operands:
+        for x in lst:
+            if isinstance(x, tuple):
+                for y in x:
+                    if isinstance(y, (TK, TV)):
+                        extra[id(y)] += 1
+            elif isinstance(x, (TK, TV)):
+                extra[id(x)] += 1
+    return extra
 
 
 def enumerate_states(ctx, thin):
